@@ -3,7 +3,14 @@ C15 — driver: replays an implementation trace through the model (correspondenc
 
 cfg:  ctor=default|custom hash=murmur|fnv|coll mod=<m> replicas=<int> probes=<key,...>
 ops:  add <node> | addr <node> <replicas> | addw <node> <weight> | remove <node> | get <key>
+      gadd | gaddr | gaddw …   the same through a gated Stringer: the harness stops the writer at every
+                               `String()` call made while the lock is free and lets reader goroutines look
+      storm <readers> <gets> <key,…> <op;op;…>   free-running readers against a writer program
+      build <addr>/<weight>,…  (cfg user=cache|kv) the ring as cache.New / kv.NewStore build it
 obs:  mutating: nk= nr= nn= ck= rk= g=<Get per probe> f=<Get per probe on a freshly built instance>
+      gated:    sig=<n> | <snapshot at signal 1> | … | <final observation as for a mutating op>
+      storm:    <final observation> r=<keyidx/lo/hi/answer,…>   (distinct reader observations)
+      build:    g=<addr of the node each probe is dispatched to | ->
       get:      <node> | - | PANIC
 -/
 import GoZero.Base.Trace
@@ -16,7 +23,7 @@ open GoZero
 def parseValue (tok : String) : Option Node :=
   match tok.splitOn ":" with
   | kind :: rest@(_ :: _) =>
-    if kind ∈ ["s", "i", "j", "t", "p"] then some { kind := kind, repr := ":".intercalate rest } else none
+    if kind ∈ ["s", "i", "j", "t", "p", "u", "o", "e", "x", "f", "g", "b", "z"] then some { kind := kind, repr := ":".intercalate rest } else none
   | _ => none
 
 def parseOp : List String → Option Op
@@ -73,8 +80,125 @@ def branchOf (s : CH) (m : SMap) (op : Op) : String :=
       (if w ≤ 0 then "-nonpositive" else if w > 100 then "-clamped" else "")
   | .remove _ => if isM then (if m.cnt op.repr < s.replicas then "remove-fewer-replicas" else "remove") else "remove-absent"
 
+
+/-- split observation tokens at `|` -/
+def splitBar (toks : List String) : List (List String) :=
+  toks.foldr (fun t acc => if t = "|" then [] :: acc else
+    match acc with
+    | [] => [[t]]
+    | a :: rest => (t :: a) :: rest) [[]]
+
+/-- membership of an answer in the map before or after an operation (what a concurrent Get may return) -/
+def memberEither (m m' : SMap) (o : Outcome) : Bool :=
+  match o with
+  | .node _ => memberOk m o || memberOk m' o
+  | .none => true
+  | .panic => false
+
+def isAdd : Op → Bool
+  | .remove _ => false
+  | _ => true
+
+def opNode : Op → Node
+  | .add n => n
+  | .addR n _ => n
+  | .addW n _ => n
+  | .remove n => n
+
+/-- states a reader may see while the writer runs `prog` from `s`: after j operations (`.1`) and, for an
+adding operation j, the intermediate state without the node (`.2`) -/
+def stormStates (H : Hasher) (s : CH) (prog : List Op) : List (CH × Option CH) :=
+  match prog with
+  | [] => [(s, none)]
+  | op :: rest =>
+    (s, if isAdd op then some (remove H s (opNode op)) else none) :: stormStates H (step H s op) rest
+
+/-- is the answer `o` for key `k` in the window [lo, hi] explained (cf. `Conc.Explained`)? -/
+def explainedBy (H : Hasher) (states : List (CH × Option CH)) (k : Node) (lo hi : Nat) (o : Outcome)
+    (withMid : Bool := true) : Bool :=
+  (List.range (hi + 1)).any fun j =>
+    lo ≤ j && match states[j]? with
+      | none => false
+      | some (sj, mid) =>
+        get H sj k == o ||
+          (withMid && j < hi && match mid with
+            | some sm => get H sm k == o
+            | none => false)
+
+def parseProg (t : String) : Option (List Op) :=
+  if t = "-" then some [] else
+  (t.splitOn ";").mapM fun o => parseOp ((o.splitOn "_").filter (· ≠ ""))
+
 def parseOutcomes (s : String) : Option (List Outcome) :=
   if s = "" then some [] else (s.splitOn ",").mapM parseOutcome
+
+/-- the monitor on the answers after a mutating operation (shared by plain, gated and storm lines) -/
+def checkAnswers (r : Report) (sec line : Nat) (hash opS : String) (op : Op) (probes : List Node)
+    (m : SMap) (wasMember isMember collBefore collAfter : Bool) (prev g f : List Outcome) : Report := Id.run do
+  let mut r := r
+  for (k, o) in probes.zip g do
+    if o == .panic then
+      r := r.violation sec line s!"panic: Get {showOutcome (.node k)} panics after [{opS}]"
+    else if !memberOk m o then
+      r := r.violation sec line s!"member-only: Get {showOutcome (.node k)} returned {showOutcome o} after [{opS}]"
+  for (k, o, o') in probes.zip (g.zip f) do
+    if o != o' then
+      r := r.violation sec line s!"history-dependent: Get {showOutcome (.node k)} is {showOutcome o} but {showOutcome o'} on an instance built from the same members, after [{opS}]"
+  if collBefore && collAfter then
+    r := r.addCover "disruption-checked"
+    for (k, o, o') in probes.zip (prev.zip g) do
+      if o != o' then r := r.addCover "probe-moved"
+      if !disruptOk op.repr wasMember isMember o o' then
+        r := r.violation sec line s!"disruption: Get {showOutcome (.node k)} moved {showOutcome o} -> {showOutcome o'} by [{opS}]"
+  else
+    r := r.addCover s!"disruption-skipped-collision-{hash}"
+  if g.any (fun o => match o with | .node _ => true | _ => false) then pure () else r := r.addCover "all-none"
+  return r
+
+def kindCover (r : Report) (pre : String) (n : Node) : Report :=
+  if n.kind ∈ ["f", "g", "b", "z", "u", "o", "e", "x"] then r.addCover s!"{pre}-kind-{n.kind}" else r
+
+/-- a ring as cache.New / kv.NewStore build it: NewConsistentHash, AddWithWeight(node, conf.Weight) in order -/
+def parseConf (kind : String) (t : String) : Option (List Op) :=
+  (t.splitOn ",").mapM fun e =>
+    match e.splitOn "/" with
+    | [a, w] => do pure (.addW { kind := kind, repr := a } (← w.toInt?))
+    | _ => none
+
+def runUserSection (r : Report) (sec : Section) (user : String) (probes : List Node) : Report := Id.run do
+  let H := hasherOf "murmur" 1
+  let kind := if user = "cache" then "t" else "p"
+  let mut r := r.addCover s!"user-{user}"
+  for l in sec.lines do
+    r := { r with ops := r.ops + 1 }
+    match l.op with
+    | ["build", conf] =>
+      match parseConf kind conf with
+      | none => r := r.mismatch sec.idx l.idx "bad-op" (joinSp l.op)
+      | some ops =>
+        -- NewConsistentHash() = NewCustomConsistentHash(minReplicas, Hash)
+        let s := ops.foldl (step H) (CH.new (minReplicas : Int))
+        let m := ops.foldl (specStep s.replicas) []
+        let outs := probes.map fun p => get H s p
+        let mine := "g=" ++ ",".intercalate (outs.map fun o => match o with
+          | .node n => n.repr | .none => "-" | .panic => "PANIC")
+        let impl := joinSp l.obs
+        if mine ≠ impl then r := r.mismatch sec.idx l.idx mine impl
+        r := r.addCover s!"build-{ops.length}-nodes"
+        if ops.any (fun o => match o with | .addW _ w => w > 100 | _ => false) then r := r.addCover "build-weight-above-100"
+        if ops.any (fun o => match o with | .addW _ w => w ≤ 0 | _ => false) then r := r.addCover "build-weight-nonpositive"
+        if !(noCollision H m) then r := r.addCover "build-colliding-addresses"
+        if m.length < ops.length then r := r.addCover "build-duplicate-address"
+        -- monitor on the implementation's answers: dispatch goes to a configured node with virtual nodes
+        match (kv? l.obs "g").map (fun g => g.splitOn ",") with
+        | none => r := r.mismatch sec.idx l.idx "bad-obs" impl
+        | some addrs =>
+          for (k, a) in probes.zip addrs do
+            let o : Outcome := if a = "-" then .none else if a = "PANIC" then .panic else .node { kind := kind, repr := a }
+            if !memberOk m o then
+              r := r.violation sec.idx l.idx s!"member-only: {user} dispatch of {showOutcome (.node k)} goes to {a}, conf=[{conf}]"
+    | _ => r := r.mismatch sec.idx l.idx "bad-op" (joinSp l.op)
+  return r
 
 def runSection (r : Report) (sec : Section) : Report := Id.run do
   let hash := kvStr sec.cfg "hash" "murmur"
@@ -84,6 +208,9 @@ def runSection (r : Report) (sec : Section) : Report := Id.run do
   let probes ← match (if probesStr = "" then some [] else (probesStr.splitOn ",").mapM parseValue) with
     | some p => pure p
     | none => return r.mismatch sec.idx 0 "bad-cfg" probesStr
+  match kv? sec.cfg "user" with
+  | some user => return runUserSection r sec user probes
+  | none => pure ()
   let replicas ← match (kv? sec.cfg "replicas").bind String.toInt? with
     | some v => pure v
     | none => return r.mismatch sec.idx 0 "bad-cfg" "replicas"
@@ -91,6 +218,7 @@ def runSection (r : Report) (sec : Section) : Report := Id.run do
   let mut m : SMap := []
   let mut prev : List Outcome := probes.map fun _ => .none
   r := r.addCover s!"hash-{hash}"
+  for p in probes do r := kindCover r "probe" p
   for l in sec.lines do
     r := { r with ops := r.ops + 1 }
     match l.op with
@@ -107,48 +235,130 @@ def runSection (r : Report) (sec : Section) : Report := Id.run do
         | some o =>
           if !memberOk m o then
             r := r.violation sec.idx l.idx s!"member-only: Get {k} returned {impl}, members=[{joinSp (m.map fun p => s!"{showOutcome (.node p.1)}*{p.2}")}]"
+    | ["storm", _, _, keysT, progT] =>
+      match (keysT.splitOn ",").mapM parseValue, parseProg progT with
+      | some keys, some prog =>
+        r := r.addCover "storm"
+        let states := stormStates H s prog
+        let opS := joinSp l.op
+        -- the writer's program, operation by operation, with the sequential monitor on the final answers
+        let s0 := s
+        let m0 := m
+        for op in prog do
+          r := r.addCover ("storm-" ++ branchOf s m op)
+          s := step H s op
+          m := specStep s.replicas m op
+        let implState := joinSp (l.obs.filter fun t => !(t.startsWith "f=") && !(t.startsWith "r="))
+        let mine := observe H s probes
+        if mine ≠ implState then r := r.mismatch sec.idx l.idx mine implState
+        if l.obs.head? = some "PANIC" then
+          r := r.violation sec.idx l.idx s!"panic: [{opS}] panics: {joinSp l.obs}"
+        else
+        match (kv? l.obs "g").bind parseOutcomes, (kv? l.obs "f").bind parseOutcomes with
+        | some g, some f =>
+          for (k, o) in probes.zip g do
+            if !memberOk m o then
+              r := r.violation sec.idx l.idx s!"member-only: Get {showOutcome (.node k)} returned {showOutcome o} after [{opS}]"
+          for (k, o, o') in probes.zip (g.zip f) do
+            if o != o' then
+              r := r.violation sec.idx l.idx s!"history-dependent: Get {showOutcome (.node k)} is {showOutcome o} but {showOutcome o'} on an instance built from the same members, after [{opS}]"
+          prev := g
+        | _, _ => r := r.mismatch sec.idx l.idx "bad-obs" (joinSp l.obs)
+        -- the readers' observations
+        let memberships : List SMap := (prog.foldl (fun (acc : List SMap × SMap × CH) op =>
+            let s' := step H acc.2.2 op
+            let m' := specStep s'.replicas acc.2.1 op
+            (acc.1 ++ [m'], m', s')) ([m0], m0, s0)).1
+        let tuples := (kvStr l.obs "r" "").splitOn ","
+        for t in tuples do
+          if t = "" then continue
+          match t.splitOn "/" with
+          | ki :: lo :: hi :: rest@(_ :: _) =>
+            match ki.toNat?.bind (fun i => keys[i]?), lo.toNat?, hi.toNat?, parseOutcome ("/".intercalate rest) with
+            | some k, some lo, some hi, some o =>
+              r := r.addCover "storm-get"
+              if lo < hi then r := r.addCover "storm-get-overlapping-writer"
+              if o == .panic then
+                r := r.violation sec.idx l.idx s!"concurrent: Get {showOutcome (.node k)} panics during [{progT}]"
+              else if !explainedBy H states k lo hi o then
+                r := r.violation sec.idx l.idx s!"concurrent: Get {showOutcome (.node k)} returned {showOutcome o} in window [{lo},{hi}] of [{progT}]: no state of the writer in that window gives this answer"
+              else
+                -- independent of the model's states: a member of some membership in the window
+                let ok := match o with
+                  | .node _ => (List.range (hi + 1)).any fun j => lo ≤ j && (match memberships[j]? with
+                      | some mj => memberOk mj o | none => false)
+                  | _ => true
+                if !ok then
+                  r := r.violation sec.idx l.idx s!"concurrent: Get {showOutcome (.node k)} returned {showOutcome o}, not a member at any point of window [{lo},{hi}] of [{progT}]"
+                if (states[lo]?.map fun st => get H st.1 k != o) == some true then r := r.addCover "storm-get-saw-later-state"
+                if !explainedBy H states k lo hi o false then r := r.addCover "storm-get-saw-gap-between-remove-and-insert"
+            | _, _, _, _ => r := r.mismatch sec.idx l.idx "bad-obs" t
+          | _ => r := r.mismatch sec.idx l.idx "bad-obs" t
+      | _, _ => r := r.mismatch sec.idx l.idx "bad-op" (joinSp l.op)
     | _ =>
-      match parseOp l.op with
+      let gated := match l.op with
+        | "gadd" :: _ => true | "gaddr" :: _ => true | "gaddw" :: _ => true | _ => false
+      let opToks := if gated then (l.op.head!.drop 1).toString :: l.op.drop 1 else l.op
+      match parseOp opToks with
       | none => r := r.mismatch sec.idx l.idx "bad-op" (joinSp l.op)
       | some op =>
         r := r.addCover (branchOf s m op)
+        r := kindCover r "node" (opNode op)
+        let overflows := match op with
+          | .addW _ w => wrapInt ((s.replicas : Int) * w) != (s.replicas : Int) * w
+          | _ => false
+        if overflows then r := r.addCover "addw-product-overflows"
         let wasMember := m.cnt op.repr > 0
         let collBefore := noCollision H m
+        let sPre := s
+        let mPre := m
         s := step H s op
         m := specStep s.replicas m op
         let isMember := m.cnt op.repr > 0
         let collAfter := noCollision H m
+        let segs := if gated then splitBar l.obs else [l.obs]
+        let finalObs := segs.getLast?.getD []
+        let opS := joinSp l.op
+        if gated then
+          -- snapshots taken by reader goroutines while the writer stood at a `String()` call with the lock free:
+          -- the code calls repr(node) before Remove's lock (state before) and between Remove and the insertion
+          r := r.addCover "gated"
+          let snaps := (segs.drop 1).dropLast
+          let sMid := remove H sPre (opNode op)
+          let expect := [observe H sPre probes, observe H sMid probes]
+          if kv? (segs.headD []) "sig" ≠ some "2" ∨ snaps.length ≠ 2 then
+            r := r.mismatch sec.idx l.idx "sig=2" (joinSp (segs.headD []))
+          for (e, sn) in expect.zip snaps do
+            if e ≠ joinSp sn then r := r.mismatch sec.idx l.idx e (joinSp sn)
+          if get H sMid (probes.headD default) != get H sPre (probes.headD default) ||
+              probes.any (fun p => get H sMid p != get H sPre p) then r := r.addCover "gated-gap-visible"
+          if mPre.cnt op.repr > 0 && (mPre.del op.repr).all (fun p => p.2 == 0) then r := r.addCover "gated-gap-empties-ring"
+          -- monitor on what the readers saw in the gap
+          for sn in snaps do
+            match (kv? sn "g").bind parseOutcomes with
+            | none => r := r.mismatch sec.idx l.idx "bad-obs" (joinSp sn)
+            | some g =>
+              for (k, o) in probes.zip g do
+                if o == .panic then
+                  r := r.violation sec.idx l.idx s!"concurrent: Get {showOutcome (.node k)} panics while [{opS}] is in progress"
+                else if !memberEither mPre m o then
+                  r := r.violation sec.idx l.idx s!"concurrent: Get {showOutcome (.node k)} returned {showOutcome o} while [{opS}] is in progress: a member neither before nor after"
+                else if o == .none && (mPre.del op.repr).any (fun p => p.2 > 0) then
+                  r := r.violation sec.idx l.idx s!"concurrent: Get {showOutcome (.node k)} returned none while [{opS}] is in progress although other nodes own virtual nodes"
         -- correspondence
-        let implState := joinSp (l.obs.filter fun t => !(t.startsWith "f="))
+        let implState := joinSp (finalObs.filter fun t => !(t.startsWith "f="))
         let mine := observe H s probes
         if mine ≠ implState then r := r.mismatch sec.idx l.idx mine implState
         -- monitor, on the implementation's own answers
         if l.obs.head? = some "PANIC" then
-          r := r.violation sec.idx l.idx s!"panic: [{joinSp l.op}] panics: {joinSp l.obs}"
+          r := r.violation sec.idx l.idx s!"panic: [{opS}] panics: {joinSp l.obs}"
         else
-        match (kv? l.obs "g").bind parseOutcomes, (kv? l.obs "f").bind parseOutcomes with
+        match (kv? finalObs "g").bind parseOutcomes, (kv? finalObs "f").bind parseOutcomes with
         | some g, some f =>
           if g.length ≠ probes.length ∨ f.length ≠ probes.length then
             r := r.mismatch sec.idx l.idx "bad-obs" "probe count"
           else
-            let opS := joinSp l.op
-            for (k, o) in probes.zip g do
-              if o == .panic then
-                r := r.violation sec.idx l.idx s!"panic: Get {showOutcome (.node k)} panics after [{opS}]"
-              else if !memberOk m o then
-                r := r.violation sec.idx l.idx s!"member-only: Get {showOutcome (.node k)} returned {showOutcome o} after [{opS}]"
-            for (k, o, o') in probes.zip (g.zip f) do
-              if o != o' then
-                r := r.violation sec.idx l.idx s!"history-dependent: Get {showOutcome (.node k)} is {showOutcome o} but {showOutcome o'} on an instance built from the same members, after [{opS}]"
-            if collBefore && collAfter then
-              r := r.addCover "disruption-checked"
-              for (k, o, o') in probes.zip (prev.zip g) do
-                if o != o' then r := r.addCover "probe-moved"
-                if !disruptOk op.repr wasMember isMember o o' then
-                  r := r.violation sec.idx l.idx s!"disruption: Get {showOutcome (.node k)} moved {showOutcome o} -> {showOutcome o'} by [{opS}]"
-            else
-              r := r.addCover s!"disruption-skipped-collision-{hash}"
-            if g.any (fun o => match o with | .node _ => true | _ => false) then pure () else r := r.addCover "all-none"
+            r := checkAnswers r sec.idx l.idx hash opS op probes m wasMember isMember collBefore collAfter prev g f
             prev := g
         | _, _ => r := r.mismatch sec.idx l.idx "bad-obs" (joinSp l.obs)
   return r
